@@ -71,8 +71,11 @@ def _adapt_to_eager_mode(inputs: ExtendedModeValue) -> tuple[EagerModeValue, boo
             return tensor.Tensor(input)
         if isinstance(input, tensor.Tensor):
             return input
-        if isinstance(input, (bool, float)):
+        if isinstance(input, bool):
             return tensor.Tensor(np.array(input))
+        if isinstance(input, float):
+            # A Python float denotes a FLOAT tensor, as in the converter (np.array would give float64).
+            return tensor.Tensor(np.array(input, dtype=np.float32))
         if isinstance(input, int):
             return tensor.Tensor(np.array(input, dtype=np.int64))
         if input is None:
